@@ -14,7 +14,11 @@ CONSTANTS
   MaxBlocks = 6
   MaxReorg = 3
   MaxCrashes = 1
+  MaxDowns = 2
+  MaxSkips = 2
   FreeChoice = FALSE
 PROPERTY NoDeepReorg
 PROPERTY NoResyncRepair
+PROPERTY NoCatchUpOverStaleBranch
+PROPERTY NoCancelledResync
 CHECK_DEADLOCK FALSE
